@@ -27,6 +27,7 @@ def check(reg, tier):
     pykernel.kernel_Fq_Iq(reg, PROP)
     _call_Fq(reg)
     _make_kernel_args(reg)
+    _load_custom_model(reg)
     # frames proved under C10/C07/C08 are part of this property as well
     c10_ids = _rerun(reg, c10._call_kernel_contract, "C10", "frame")
     c10_ids += _rerun(reg, c10._calc_theory_contract, "C10", "frame")
@@ -112,3 +113,90 @@ def _make_kernel_args(reg):
     written and the returned value vector is a fresh array."""
     fn = "sasmodels.details.make_kernel_args"
     reg.notes.append("make_kernel_args frame is covered with its full contract under C01")
+
+
+def _load_custom_model(reg):
+    """sasview_model.load_custom_model: the class returned is built from the module that
+    custom.load_custom_kernel_module has just returned (the current revision of the plugin), whatever was
+    loaded before: first load, unchanged reload (registry hit) and reload after an edit."""
+    import z3
+    from vp.pyvc import Interp, Summary
+    fn = "sasmodels.sasview_model.load_custom_model"
+    for case in ("first_load", "unchanged_reload", "reload_after_edit", "edited_and_registry_entry_missing"):
+        def body(it, case=case):
+            path = "/plugins/plug.py"
+            new_module = it.new_obj(None, {"__file__": path}, "kernel_module_current")
+            old_module = it.new_obj(None, {"__file__": path}, "kernel_module_previous")
+            made = {}
+
+            def make_info(it_, a, k):
+                return it_.new_obj(None, {"module": a[0]}, "model_info")
+
+            def make_model(it_, a, k):
+                m = it_.new_obj(None, {"name": "plug", "id": "plug", "filename": path,
+                                       "made_from": it_.getattr(a[0], "module")}, "SasviewModel class")
+                made["new"] = m
+                return m
+            it.summaries["sasmodels.custom.load_custom_kernel_module"] = Summary(
+                lambda it_, a, k: new_module, "load_custom_kernel_module (contract C17)", contract=False)
+            it.summaries["sasmodels.modelinfo.make_model_info"] = Summary(make_info, "make_model_info", contract=False)
+            it.summaries["sasmodels.sasview_model.make_model_from_info"] = Summary(make_model, "make_model_from_info",
+                                                                                   contract=False)
+            old_model = it.new_obj(None, {"name": "plug", "id": "plug", "filename": path,
+                                          "made_from": new_module if case == "unchanged_reload" else old_module},
+                                   "registered class")
+            cached = {}
+            models = {}
+            if case == "unchanged_reload":
+                cached[path] = (True, new_module)
+                models["plug"] = (True, old_model)
+            elif case == "reload_after_edit":
+                cached[path] = (True, old_module)
+                models["plug"] = (True, old_model)
+            elif case == "edited_and_registry_entry_missing":
+                cached[path] = (True, old_module)
+            it.global_overrides = {("sasmodels.sasview_model", "_CACHED_MODULE"): it.new_dict(cached),
+                                   ("sasmodels.sasview_model", "MODELS"): it.new_dict(models)}
+            f = it.get_func("sasmodels.sasview_model", "load_custom_model")
+            out = it.call(f, [path])
+            src = it.getattr(out, "made_from", None) if out is not None else None
+            reg.prove("%s.load_custom_model.returns_class_built_from_the_current_module.%s" % (PROP, case), it.pc,
+                      z3.BoolVal(src is new_module), function=fn, replay=lambda mdl=None: _replay_load_custom_model())
+            ent = it.global_overrides[("sasmodels.sasview_model", "MODELS")].entries.get("plug")
+            reg.prove("%s.load_custom_model.registry_holds_the_returned_class.%s" % (PROP, case), it.pc,
+                      z3.BoolVal(ent is not None and ent[1] is out), function=fn,
+                      replay=lambda mdl=None: _replay_load_custom_model())
+        it = Interp(reg)
+        it.poison_one_arm = False
+        it.run_paths(body)
+
+
+def _replay_load_custom_model():
+    """Real load_custom_model on a python plugin edited between two loads."""
+    import os
+    import shutil
+    import tempfile
+    import numpy as np
+    from sasmodels import sasview_model
+    d = tempfile.mkdtemp(prefix="verif_c11_")
+    try:
+        p = os.path.join(d, "verifplug.py")
+
+        def write(c, t):
+            open(p, "w").write('import numpy as np\nname = "verifplug"\ntitle = "t"\ndescription = "d"\n'
+                               'category = "shape-independent"\nparameters = [["a", "", 1.0, [0, 10], "", "a"]]\n'
+                               'def Iq(q, a):\n    return %r*a + 0*q\nIq.vectorized = True\n' % c)
+            os.utime(p, (t, t))
+        write(2.0, 1600000000)
+        M1 = sasview_model.load_custom_model(p)
+        y1 = float(np.ravel(M1().evalDistribution(np.array([0.1])))[0])
+        write(5.0, 1600000010)
+        M2 = sasview_model.load_custom_model(p)
+        y2 = float(np.ravel(M2().evalDistribution(np.array([0.1])))[0])
+    finally:
+        shutil.rmtree(d, ignore_errors=True)
+        sasview_model.MODELS.pop("verifplug", None)
+    want1, want2 = 2.0 + 0.001, 5.0 + 0.001
+    bad = not (np.isclose(y1, want1) and np.isclose(y2, want2))
+    return bool(bad), {"call": "load_custom_model(plugin) / edit the plugin (newer mtime) / load_custom_model(plugin)",
+                       "real": [float(y1), float(y2)], "spec": [want1, want2]}
